@@ -38,24 +38,24 @@ type CallSite struct { // "at call <callee>: assert <cond>"
 }
 
 type FuncContract struct {
-	Pkg       string // package import path
-	Key       string // function key within package
-	File      string
-	Props     []string
-	Requires  []*Clause
-	Ensures   []*Clause
-	Loops     map[int]*LoopContract
-	CallSites []*CallSite
-	Assigns   []string // nil = unspecified (anything); ["nothing"]; or list of lvalue patterns
-	HasAssign bool
-	NoPanic   bool
-	Trusted   bool // assumed, not verified (external dependency or declared so)
-	Pure      bool // no heap effects, result deterministic function of args+heap
+	Pkg        string // package import path
+	Key        string // function key within package
+	File       string
+	Props      []string
+	Requires   []*Clause
+	Ensures    []*Clause
+	Loops      map[int]*LoopContract
+	CallSites  []*CallSite
+	Assigns    []string // nil = unspecified (anything); ["nothing"]; or list of lvalue patterns
+	HasAssign  bool
+	NoPanic    bool
+	Trusted    bool // assumed, not verified (external dependency or declared so)
+	Pure       bool // no heap effects, result deterministic function of args+heap
 	Functional bool // results are a (named, uninterpreted) function of the argument values
-	Safety    bool // emit automatic safety obligations (default true)
-	Inline    bool // force inlining at call sites even though a contract exists
-	Opts      map[string]string
-	Bound     bool
+	Safety     bool // emit automatic safety obligations (default true)
+	Inline     bool // force inlining at call sites even though a contract exists
+	Opts       map[string]string
+	Bound      bool
 }
 
 type SpecFunc struct {
@@ -383,9 +383,10 @@ func parseContractExpr(s string) (ast.Expr, error) {
 }
 
 // transformExpr rewrites the contract-only operators into Go call syntax:
-//   A ==> B               implies_(A, B)      (right associative, lowest)
-//   A <==> B              iff_(A, B)
-//   forall x in lo..hi: P forall_(x, lo, hi, P)   (exists likewise)
+//
+//	A ==> B               implies_(A, B)      (right associative, lowest)
+//	A <==> B              iff_(A, B)
+//	forall x in lo..hi: P forall_(x, lo, hi, P)   (exists likewise)
 func transformExpr(s string) string {
 	s = strings.TrimSpace(s)
 	// 1. transform inside parenthesised / bracketed groups
